@@ -31,6 +31,21 @@ theorem C08_unicast_only_addressee_service (fuel : Nat) (st : St) (n : Nat) (ser
   · exact h1.log m fid ip hev
   · split at hev <;> exact h2.log m fid ip hev
 
+/-- the same for ANY application exchange identified by its (port, protocol) key — DNS, database, HTTP, FTP …: the request, the
+look-up of the receiving software (`SoftwareManager.receive_payload_from_session_manager`) on whichever node accepts the frame,
+the answer sent back to the request's source, and every ARP exchange, flood and hop on the way: software is handed a unicast
+frame only on a node that owns its destination address.  Unconditional. -/
+theorem C08_unicast_only_addressee_app (fuel : Nat) (st : St) (n : Nat) (server : Ip) (svc : Nat) (reply : Bool)
+    (hlog : ∀ m fid ip, Ev.sw m fid ip false ∈ st.log → Owns (cfgOf st) m ip) (m fid : Nat) (ip : Ip)
+    (hev : Ev.sw m fid ip false ∈ (requestApp fuel st n server svc reply).1.log) : Owns (cfgOf st) m ip := by
+  have hG : G (cfgOf st) (fun _ _ => True) st := ⟨rfl, fun _ _ _ _ _ => trivial, hlog⟩
+  have h2 := (gAt (spec_true (cfgOf st)) fuel).icmp st n server (.appReq svc reply) hG trivial
+  unfold requestApp at hev
+  simp only at hev
+  split at hev
+  · exact hG.log m fid ip hev
+  · split at hev <;> exact h2.log m fid ip hev
+
 /-- … and the interpreter never changes the configuration (interfaces, addresses, gateways, routes), so "owns" means the
 same before and after. -/
 theorem C08_config_static (fuel : Nat) (st : St) (n : Nat) (dst : Ip) (pings : Nat)
